@@ -132,6 +132,11 @@ def install_externals(interp, funcs, extra=None):
     def external(interp_, name, args, kwpairs):
         if name == 'inspect.signature':
             o = args[0]
+            # ASSUMPTION INSPECT-WRAPPED: inspect.signature follows __wrapped__ up to an object with an explicit __signature__
+            seen = 0
+            while isinstance(o, SymFunc) and o.def_sig is None and '__wrapped__' in o.attrs and '__signature__' not in o.attrs and seen < 8:
+                o = o.attrs['__wrapped__']
+                seen += 1
             if isinstance(o, SymFunc) and o.def_sig is not None:
                 return o.def_sig
             if extra is not None:
@@ -145,6 +150,8 @@ def install_externals(interp, funcs, extra=None):
                 from .objects import may_raise
                 may_raise(interp_, 'eval')        # evaluating an annotation runs arbitrary user code
                 rv = sym.to_mv(raw).val if not isinstance(raw, SymVal) else raw.t
+                if sym.EPOCH[0]:
+                    return SymVal(sym.EVALIN_AT(rv, g.func.t, z3.IntVal(sym.EPOCH[0])))
                 return SymVal(EVALIN(rv, g.func.t))
             raise EngineLimit('eval outside a function globals')
         if extra is not None:
